@@ -184,3 +184,9 @@ def python_flags() -> None:
     os.environ.setdefault(GUARD, "1")
     if str(REPO) not in sys.path:
         sys.path.insert(0, str(REPO))  # `tests.utils` helpers
+    if REPO != pathlib.Path("/repo") and str(REPO / "src") not in sys.path:
+        # checking another tree (a scratch worktree with a seeded change): import frequenz.sdk from there
+        sys.path.insert(0, str(REPO / "src"))
+        import frequenz  # namespace package: make sure the scratch tree's portion is searched first
+
+        frequenz.__path__ = [str(REPO / "src" / "frequenz")] + [p for p in frequenz.__path__ if p != str(REPO / "src" / "frequenz")]
